@@ -81,9 +81,13 @@ func Specs(cl Clauses, thorough bool) []Spec {
 	if cl.C05 {
 		ed = d + 1
 	}
-	for _, e := range []EpochCfg{{"10.0.0.0/29", 1, subs}, {"10.0.0.5/29", 2, subs}, {"10.0.0.0/30", 1, subs}, {"10.0.0.8/30", 2, subs}, {"10.0.0.0/31", 1, subs[:2]}, {"10.0.0.9/32", 1, subs[:2]}, {"10.0.0.0/29", 3, subs[:2]}} {
+	for _, e := range []EpochCfg{{"10.0.0.0/29", 1, subs}, {"10.0.0.5/29", 2, subs}, {"10.0.0.0/30", 1, subs}, {"10.0.0.8/30", 2, subs}, {"10.0.0.0/31", 1, subs[:2]}, {"10.0.0.9/32", 1, subs[:2]}, {"10.0.0.0/29", 3, subs[:2]}, {"10.0.0.16/29", 0, subs[:2]} /* GracePeriod unset = documented default 1 */} {
 		e := e
-		add("allocator.EpochBitmapAllocator", fmt.Sprintf("%s grace=%d", e.Net, e.Grace), ed, nd, func() explore.System { return NewEpoch(cl, e) })
+		gtxt := fmt.Sprint(e.Grace)
+		if e.Grace == 0 {
+			gtxt = "1(unset)"
+		}
+		add("allocator.EpochBitmapAllocator", fmt.Sprintf("%s grace=%s", e.Net, gtxt), ed, nd, func() explore.System { return NewEpoch(cl, e) })
 	}
 
 	// --- dhcp.Pool: reserved ranges, gateway inside / outside
